@@ -33,7 +33,9 @@ Clause(m, ev) ==
   ELSE IF ev.ngen > ev.cap THEN <<"C17.over_capacity">>
   ELSE IF ev.custom /\ RegNames(m, ev.e) \cap Requested(ev) = {}
        THEN <<"C17.custom_for_other_name">>
-  ELSE IF ~ev.custom /\ (ev.ecn # ev.cn \/ ToSet(ev.esans) # ToSet(ev.sans))
+  \* a generated certificate names exactly the requested names; its common name may be left out (names of 64+
+  \* characters do not fit into a CN), the SANs must be the requested ones
+  ELSE IF ~ev.custom /\ ((ev.ecn # <<>> /\ ev.ecn # ev.cn) \/ ToSet(ev.esans) # ToSet(ev.sans))
        THEN <<"C17.generated_for_other_names">>
   ELSE IF ~ev.custom /\ ev.cached /\ LastFor(m, ev) # {} /\ ev.e \notin LastFor(m, ev)
        THEN <<"C17.not_same_while_cached">>
